@@ -90,4 +90,20 @@ void w_bi_inval_reval(uint32_t* st, uint32_t reason, uint32_t* mid) {
 void h_bi_inval_reval() { w_bi_inval_reval((uint32_t*)nondet_ptr(), nondet_unsigned(), (uint32_t*)nondet_ptr()); REACH; }
 int w_isValidInvalidationReason(uint32_t r) { return isValidInvalidationReason((BlockValidityStatus)r); }
 void h_isValidInvalidationReason() { w_isValidInvalidationReason(nondet_unsigned()); REACH; }
+
+// chain c[0] (tip, height h0) <- c[1] <- ... <- c[n-1] (root); returns the index (0..n-1) of getAncestor(target), or -1 for null;
+// *behind = the same for getAncestorBlocksBehind(steps)
+int w_bi_getAncestor(uint32_t n, int32_t h0, int32_t target, int32_t steps, int* behind) {
+  BlockIndex c0(0), c1(0), c2(0), c3(0), c4(0), c5(0);
+  BlockIndex* c[6] = {&c0, &c1, &c2, &c3, &c4, &c5};
+  for (uint32_t i = 0; i < 6; i++) { c[i]->height = h0 - (int32_t)i; c[i]->pprev = (i + 1 < n) ? c[i + 1] : 0; }
+  const BlockIndex* r = c0.getAncestor(target);
+  const BlockIndex* b = c0.getAncestorBlocksBehind(steps);
+  *behind = -1;
+  int ri = -1;
+  for (int i = 0; i < 6; i++) { if (r == c[i]) ri = i; if (b == c[i]) *behind = i; }
+  __CPROVER_assert(r == 0 || ri >= 0, "getAncestor returns a block of the chain or null");
+  return ri;
+}
+void h_bi_getAncestor() { w_bi_getAncestor(nondet_unsigned(), nondet_int(), nondet_int(), nondet_int(), (int*)nondet_ptr()); REACH; }
 }
